@@ -39,6 +39,7 @@ pub enum G {
     Lc,
     Buf(&'static str), // template: sequence of 'c' / 's' pushes after the initial string
     BufNew(&'static str),
+    BufSeq(&'static str), // operation history (see runners::buf_templates); argument 0 is the template
     Lu,
     LuX,
     LuI,
@@ -88,6 +89,10 @@ pub const STRS: &[&str] = &[
 
 const ALPHABET: &[char] = &[
     'a', 'b', ' ', '\n', '\r', 'é', 'ß', '日', '😀', '\u{301}', '\t', 'A', 'Z', ',', '\u{a0}', 'İ', '!', 'x', '\n', 'Σ',
+    // Unicode special-casing classes: title-case digraph, ligature, dotless i, final sigma, Kelvin sign (3 bytes -> 1),
+    // U+023A (2 bytes -> 3), U+0149 (expands), ypogegrammeni (Other_Lowercase combining mark), Other_Uppercase numeral,
+    // title-case Greek (expands both ways), non-ASCII White_Space and a zero-width look-alike
+    'ǅ', 'ﬁ', 'ı', 'ς', '\u{212a}', 'Ⱥ', 'ŉ', '\u{345}', 'Ⅰ', 'ᾈ', '\u{2028}', '\u{200b}', '1',
 ];
 
 pub const F64S: &[f64] = &[
@@ -122,6 +127,19 @@ pub fn corpus() -> Vec<(&'static str, Vec<A>)> {
         ("StringLines.slice", vec![A::S("".into()), A::U(0), A::U(1)]),
         ("StringLines.slice", vec![A::S("a\nb".into()), A::U(2), A::U(2)]),
     ]
+}
+
+/// Class representatives that run FIRST for a built-in, independent of the seed
+/// (after the corpus of known witnesses): one subject per argument class that
+/// the built-in's documented meaning distinguishes.
+pub fn reps(name: &str) -> Vec<Vec<A>> {
+    match name {
+        // one string per case-mapping signature of std (x context), plus the context-sensitive mappings
+        "String.to_lowercase" | "String.to_uppercase" => crate::unicode::case_strings().into_iter().map(|s| vec![A::S(s)]).collect(),
+        // every White_Space code point and its look-alikes at both ends
+        "String.trim" | "String.trim_start" | "String.trim_end" => crate::unicode::ws_strings().into_iter().map(|s| vec![A::S(s)]).collect(),
+        _ => vec![],
+    }
 }
 
 fn view_len(v: View, s: &str) -> u64 {
@@ -189,6 +207,11 @@ pub fn classify(name: &str, a: &[A]) -> String {
         };
     }
     let mut parts = vec![];
+    match name {
+        "String.to_lowercase" | "String.to_uppercase" => parts.push(crate::unicode::str_case_class(a[0].s())),
+        "String.trim" | "String.trim_start" | "String.trim_end" => parts.push(crate::unicode::str_ws_class(a[0].s())),
+        _ => {}
+    }
     for x in a {
         parts.push(match x {
             A::S(s) => str_class(s).to_string(),
@@ -471,6 +494,16 @@ impl Gen {
                     }
                 }
                 v
+            }
+            G::BufSeq(t) => {
+                let cs = ['x', 'é', '😀', '\u{301}', '\n', ',', '日', 'ǅ'];
+                let a = self.string(k);
+                let c1 = cs[(k as usize) % cs.len()];
+                let c2 = cs[(k as usize / 2 + 3) % cs.len()];
+                // short, distinguishable pushes (an empty one every fifth case)
+                let s1 = if k % 5 == 4 { String::new() } else { self.string(k * 3 + 7) };
+                let s2 = if k % 7 == 6 { String::new() } else { self.rand_string() };
+                vec![A::S(t.to_string()), A::S(a), A::C(c1), A::C(c2), A::S(s1), A::S(s2)]
             }
             G::Lu => vec![A::Lu(self.ulist(k))],
             G::LuX => {
